@@ -73,6 +73,8 @@ class PooledCycleResource(Entity):
         self._queue: deque[Event] = deque()
         self._completed = 0
         self._rejected = 0
+        # Re-offered queue heads whose unit is already reserved for them
+        self._handed_over: set[Event] = set()
 
     def downstream_entities(self) -> list[Entity]:
         if self.downstream is not None:
@@ -118,6 +120,11 @@ class PooledCycleResource(Entity):
         )
 
     def handle_event(self, event: Event) -> Generator[float, None, list[Event]] | list[Event]:
+        if event in self._handed_over:
+            # Head of the wait queue coming back for the unit that was set aside for it
+            self._handed_over.discard(event)
+            return self._start_cycle(event, reserved=True)
+
         if self._available > 0:
             return self._start_cycle(event)
 
@@ -140,8 +147,11 @@ class PooledCycleResource(Entity):
         )
         return []
 
-    def _start_cycle(self, event: Event) -> Generator[float, None, list[Event]]:
-        self._available -= 1
+    def _start_cycle(
+        self, event: Event, reserved: bool = False
+    ) -> Generator[float, None, list[Event]]:
+        if not reserved:
+            self._available -= 1
         self._active += 1
 
         try:
@@ -166,14 +176,17 @@ class PooledCycleResource(Entity):
         # Try to dequeue next waiting item
         if self._queue and self._available > 0:
             next_event = self._queue.popleft()
-            # Schedule dequeued item for immediate processing
-            results.append(
-                Event(
-                    time=self.now,
-                    event_type=next_event.event_type,
-                    target=self,
-                    context=next_event.context,
-                )
+            # Schedule dequeued item for immediate processing. The freed unit is
+            # set aside for it: an arrival delivered at this same instant before
+            # the re-offered event must not take the unit (and the head's place).
+            self._available -= 1
+            handover = Event(
+                time=self.now,
+                event_type=next_event.event_type,
+                target=self,
+                context=next_event.context,
             )
+            self._handed_over.add(handover)
+            results.append(handover)
 
         return results
